@@ -50,13 +50,18 @@ func (f *Tagbody) Call(s *slip.Scope, args slip.List, depth int) slip.Object {
 	ns.TagBody = true
 	d2 := depth + 1
 	for i := 0; i < len(args); i++ {
-		switch tr := slip.EvalArg(ns, args, i, d2).(type) {
-		case *slip.ReturnResult:
-			return tr
-		case *GoTo:
-			for i++; i < len(args); i++ {
-				if args[i] == tr.Tag {
-					break
+		switch args[i].(type) {
+		case slip.List, slip.Funky:
+			// A statement. Anything else, a symbol or an integer, is a tag
+			// and is not evaluated.
+			switch tr := slip.EvalArg(ns, args, i, d2).(type) {
+			case *slip.ReturnResult:
+				return tr
+			case *GoTo:
+				for i++; i < len(args); i++ {
+					if args[i] == tr.Tag {
+						break
+					}
 				}
 			}
 		}
